@@ -23,12 +23,38 @@ BUDGET = {"quick": {"shards": 8, "examples": 250}, "thorough": {"shards": 16, "e
 def strategy(tier):
     p = G.Profile(kinds={"test", "section", "addtest", "func", "block", "generic", "set"}, max_items=6 if tier == "quick" else 10,
                   depth=3 if tier == "quick" else 4, dangling=False, groups=False, impl_doc=True, dups=True, moddoc=False, body_max=3)
-    return st.fixed_dictionaries({"module": G.module(p), "layout": G.layout_choices(24)})
+    return st.fixed_dictionaries({"module": G.module(p), "layout": G.layout_choices(24), "twins": st.sampled_from([True, False, False])})
+
+
+def with_twins(module):
+    """After ct_add_test(NAME n EXPECTFAIL) add ct_add_test(NAME nEXPECTFAIL): same characters, other boundaries."""
+    import copy
+    mod = copy.deepcopy(module)
+
+    def rec(items):
+        out = []
+        for it in items:
+            out.append(it)
+            for key in ("body",):
+                if key in it:
+                    it[key] = rec(it[key])
+            if "impl" in it:
+                it["impl"]["body"] = rec(it["impl"]["body"])
+            if it["k"] in ("test", "section") and it["name"].isidentifier() and it["post"][:1] == ["EXPECTFAIL"] and not it["pre"]:
+                tw = copy.deepcopy(it)
+                tw["name"] = it["name"] + "EXPECTFAIL"
+                tw["post"] = it["post"][1:]
+                tw["doc"] = None
+                tw["impl"]["body"] = []
+                out.append(tw)
+        return out
+    mod["items"] = rec(mod["items"])
+    return mod
 
 
 def evaluate(case):
     res = Result()
-    module = case["module"]
+    module = with_twins(case["module"]) if case.get("twins") else case["module"]
     src = R.render(module, case["layout"])
     tests = [(it, d) for it, d, _ in G.walk(module["items"]) if it["k"] in ("test", "section", "addtest")]
     nt = False
@@ -62,4 +88,5 @@ def evaluate(case):
 
 
 def describe(case):
-    return {"source": R.render(case["module"], case["layout"])}
+    module = with_twins(case["module"]) if case.get("twins") else case["module"]
+    return {"source": R.render(module, case["layout"])}
